@@ -13,16 +13,19 @@ package props
 // change to /repo or the SDK is needed).
 
 import (
+	"encoding/json"
 	"fmt"
 	"reflect"
 	"unsafe"
 
 	c4eapp "github.com/chain4energy/c4e-chain/app"
 	"github.com/cosmos/cosmos-sdk/client/tx"
+	"github.com/cosmos/cosmos-sdk/codec/legacy"
 	codectypes "github.com/cosmos/cosmos-sdk/codec/types"
 	sdk "github.com/cosmos/cosmos-sdk/types"
 	sdkerrors "github.com/cosmos/cosmos-sdk/types/errors"
 	"github.com/cosmos/cosmos-sdk/types/tx/signing"
+	"github.com/cosmos/cosmos-sdk/x/auth/migrations/legacytx"
 	authsigning "github.com/cosmos/cosmos-sdk/x/auth/signing"
 	abci "github.com/tendermint/tendermint/abci/types"
 )
@@ -129,10 +132,38 @@ func SignTx(w *World, signer Acc, accNum, seq uint64, o TxOpts, msgs ...sdk.Msg)
 	if err := b.SetSignatures(sigV2); err != nil {
 		return nil, err
 	}
-	sd := authsigning.SignerData{Address: signer.Addr.String(), ChainID: ChainID, AccountNumber: accNum, Sequence: seq, PubKey: signer.Priv.PubKey()}
-	sig, err := tx.SignWithPrivKey(mode, sd, b, signer.Priv, txCfg, seq)
-	if err != nil {
-		return nil, err
+	var sig signing.SignatureV2
+	if o.Amino {
+		// the client builds the amino JSON sign document itself from what the messages offer
+		// (GetSignBytes), as wallets and hardware signers do; whether the node can rebuild it is the
+		// node's business
+		var raw []json.RawMessage
+		for _, m := range msgs {
+			sb, ok := m.(interface{ GetSignBytes() []byte })
+			if !ok {
+				return nil, fmt.Errorf("%T has no amino JSON form", m)
+			}
+			raw = append(raw, json.RawMessage(sb.GetSignBytes()))
+		}
+		stdFee := legacytx.StdFee{Amount: fee, Gas: gas}
+		if o.Granter != nil {
+			stdFee.Granter = o.Granter.String()
+		}
+		doc, err := legacy.Cdc.MarshalJSON(legacytx.StdSignDoc{AccountNumber: accNum, ChainID: ChainID, Fee: json.RawMessage(stdFee.Bytes()), Memo: o.Memo, Msgs: raw, Sequence: seq})
+		if err != nil {
+			return nil, err
+		}
+		sigBz, err := signer.Priv.Sign(sdk.MustSortJSON(doc))
+		if err != nil {
+			return nil, err
+		}
+		sig = signing.SignatureV2{PubKey: signer.Priv.PubKey(), Data: &signing.SingleSignatureData{SignMode: mode, Signature: sigBz}, Sequence: seq}
+	} else {
+		sd := authsigning.SignerData{Address: signer.Addr.String(), ChainID: ChainID, AccountNumber: accNum, Sequence: seq, PubKey: signer.Priv.PubKey()}
+		sig, err = tx.SignWithPrivKey(mode, sd, b, signer.Priv, txCfg, seq)
+		if err != nil {
+			return nil, err
+		}
 	}
 	if err := b.SetSignatures(sig); err != nil {
 		return nil, err
